@@ -111,8 +111,15 @@ def entity_map_roundtrip(accessories_list):
     s1 = json.loads(json.dumps(s1))
     s2 = json.loads(json.dumps(Accessories.from_list(s1).serialize()))
     diffs = []
-    if s1 != s2:
-        diffs.append(("not-a-fixpoint",))
+    diffs += _needed_fields_equal(accessories_list, s1)
+    diffs += _needed_fields_equal(s1, s2)
+    return diffs
+
+
+def _needed_fields_equal(accessories_list, s1):
+    from aiohomekit.uuid import normalize_uuid
+
+    diffs = []
     by = {(a["aid"], s["iid"]): s for a in s1 for s in a["services"]}
     for a in accessories_list:
         for s in a["services"]:
